@@ -1,6 +1,7 @@
 From Coq Require Import List NArith Bool Arith.
-From AMV Require Import Base.ListSet Model.Schema Model.Machine Run.EvalHist Spec.C05.
+From AMV Require Import Base.ListSet Model.Schema Model.Machine Run.EvalHist Spec.C05 Spec.C05b.
 Import ListNotations.
 Definition violations (k : hcase) : list N :=
-  nodup N.eq_dec (c05_codes (h_schema k) (h_topo k) (h_bindings k) (h_obs k)).
+  nodup N.eq_dec (c05_codes (h_schema k) (h_topo k) (h_bindings k) (h_obs k)
+                  ++ c05b_codes (h_schema k) (h_topo k) (h_bindings k) (h_obs k)).
 Definition check_all := check_hist violations.
